@@ -124,6 +124,11 @@ func c14genLit(rng *rand.Rand, idx int, allowCaptured bool) *c14lit {
 	switch l.kind {
 	case "counter":
 		l.src = fmt.Sprintf("<{|i| yield %s if i < %d; recur(i + %d)}>", fe, l.N, l.S)
+		if rng.Intn(3) == 0 {
+			// the same iterator written without parameters: its state lives in `\` only
+			be := map[string]string{"i": "\\", "i*2": "\\ * 2", "[i, i]": "[\\, \\]"}[l.F]
+			l.src = fmt.Sprintf("<{yield %s if \\ < %d; recur(\\ + %d)}>", be, l.N, l.S)
+		}
 	case "factory":
 		// the literal is written inside a function: its free variables belong to that call
 		l.F = "i"
@@ -139,6 +144,10 @@ func c14genLit(rng *rand.Rand, idx int, allowCaptured bool) *c14lit {
 		l.src = fmt.Sprintf("<{|i, step: 1| yield i if i < %d; recur(i + step, step: step)}>", l.N)
 	case "infinite":
 		l.src = fmt.Sprintf("<{|i| yield %s; recur(i + %d)}>", fe, l.S)
+		if rng.Intn(3) == 0 {
+			be := map[string]string{"i": "\\", "i*2": "\\ * 2", "[i, i]": "[\\, \\]"}[l.F]
+			l.src = fmt.Sprintf("<{yield %s; recur(\\ + %d)}>", be, l.S)
+		}
 	case "twoyields":
 		l.src = "<{|i| yield i * 10; yield 999; recur(i + 1)}>"
 	case "recurfirst":
@@ -193,7 +202,7 @@ func init() {
 
 func runC14(w *fw.W) {
 	var ip *interp.Interp
-	nh := w.Pick(800, 40000)
+	nh := w.Pick(4000, 100000)
 	for h := 0; h < nh; h++ {
 		if !w.Take() {
 			continue
